@@ -723,6 +723,12 @@ def _reduce(name, a, axis=None, out=None, keepdims=False, dtype=None, **kw):
     if out is not None or keepdims or dtype is not None or kw:
         raise ModelGap("reduction kwargs %r" % (sorted(kw) or 'out/keepdims/dtype'))
     if isinstance(a, MaskedArray):
+        # NumPy dispatches np.f(masked) to the masked method for these reductions; np.ptp works on the raw data
+        if name in ('sum', 'prod', 'mean', 'min', 'max', 'std', 'var', 'all', 'any'):
+            return _MA._red(name, a, axis)
+        if name == 'ptp':
+            r = _reduce('ptp', a._data, axis)
+            return MaskedArray(r, zeros(r.shape, 'b')) if isinstance(r, ndarray) else MaskedArray(ndarray((), 'f', [r]), ndarray((), 'b', [False]))
         raise ModelGap("np.%s on masked array" % name)
     a = asarray(a)
     if a.dtype.kind in 'OU' and name not in ('all', 'any', 'min', 'max', 'sum', 'argmin', 'argmax'):
@@ -1386,7 +1392,7 @@ class _MA(object):
             a = _MA.array(a)
         d, m = a._data, a._mask
         kern = _KERNELS[name]
-        rk = 'b' if name in ('all', 'any') else d.dtype.kind
+        rk = 'b' if name in ('all', 'any') else ('f' if name in _FLOATRES else ('i' if d.dtype.kind == 'b' and name in ('sum', 'prod') else d.dtype.kind))
 
         def fibre(cells, masks):
             c = [x for x, mm in zip(cells, masks) if not mm]
@@ -1424,6 +1430,35 @@ class _MA(object):
     @staticmethod
     def any(a, axis=None, **kw):
         return _MA._red('any', a, axis, **kw)
+
+    @staticmethod
+    def sum(a, axis=None, **kw):
+        return _MA._red('sum', a, axis, **kw)
+
+    @staticmethod
+    def prod(a, axis=None, **kw):
+        return _MA._red('prod', a, axis, **kw)
+
+    @staticmethod
+    def mean(a, axis=None, **kw):
+        return _MA._red('mean', a, axis, **kw)
+
+    @staticmethod
+    def min(a, axis=None, **kw):
+        return _MA._red('min', a, axis, **kw)
+
+    @staticmethod
+    def max(a, axis=None, **kw):
+        return _MA._red('max', a, axis, **kw)
+
+    @staticmethod
+    def std(a, axis=None, **kw):
+        return _MA._red('std', a, axis, **kw)
+
+    @staticmethod
+    def var(a, axis=None, **kw):
+        return _MA._red('var', a, axis, **kw)
+
 
     def __getattr__(self, name):
         from . import _realnames
@@ -1690,3 +1725,63 @@ def issubdtype(a, b):
 
 def can_cast(*a, **k):
     raise ModelGap("can_cast")
+
+
+def putmask(a, mask, values):
+    if not isinstance(a, ndarray):
+        raise TypeError("argument 1 must be numpy.ndarray")
+    ms, mf = _discover(mask)
+    vs, vf = _discover(values)
+    mb = _broadcast_flat(ms, mf, a.shape)
+    if not vf:
+        return
+    k = a.dtype.kind
+    for i, m in enumerate(mb):
+        if _isnan_cell(m) or m:
+            a._set(i, _cast_cell(vf[i % len(vf)], k))
+
+
+def place(arr, mask, vals):
+    ms, mf = _discover(mask)
+    vs, vf = _discover(vals)
+    mb = _broadcast_flat(ms, mf, arr.shape)
+    if not vf and builtins.any(bool(m) for m in mb):
+        raise ValueError("Cannot insert from an empty array!")
+    k = arr.dtype.kind
+    j = 0
+    for i, m in enumerate(mb):
+        if _isnan_cell(m) or m:
+            arr._set(i, _cast_cell(vf[j % len(vf)], k))
+            j += 1
+
+
+def copyto(dst, src, casting='same_kind', where=True):
+    ss, sf = _discover(src)
+    sb = _broadcast_flat(ss, sf, dst.shape)
+    if where is True:
+        wb = [True] * len(sb)
+    else:
+        ws, wf = _discover(where)
+        wb = _broadcast_flat(ws, wf, dst.shape)
+    k = dst.dtype.kind
+    for i, (w, v) in enumerate(zip(wb, sb)):
+        if w:
+            dst._set(i, _cast_cell(v, k))
+
+
+def put(a, ind, v, mode='raise'):
+    isz, iflat = _discover(ind)
+    vs, vf = _discover(v)
+    n = a.size
+    k = a.dtype.kind
+    for j, i in enumerate(iflat):
+        i = int(i)
+        if mode == 'raise' and (i < -n or i >= n):
+            raise IndexError("index %d is out of bounds for axis 0 with size %d" % (i, n))
+        if mode == 'wrap':
+            i %= n
+        elif mode == 'clip':
+            i = builtins.min(builtins.max(i, 0), n - 1)
+        elif i < 0:
+            i += n
+        a._set(i, _cast_cell(vf[j % len(vf)], k))
